@@ -1,6 +1,6 @@
 """C04 - see DESIGN.md §2 C04.  Deductive parts (contracts/) are added to this module as they are built; the bounded stand-in is checks/b04.py."""
 from vlib import env
-from checks.common import bounded_part, want, contract_sources, make_replay, t_oblig
+from checks.common import anchored, bounded_part, want, contract_sources, make_replay, t_oblig
 from pysym.harness import run_cases
 
 LEVEL = 'other'
@@ -19,9 +19,11 @@ def deductive(run):
 def main(run):
     env.setup()
     if want(run, 'T'):
+      with anchored(run, 'C04/T'):
         from contracts import tablelemmas
         tablelemmas.C04(run)
     if want(run, 'P') or want(run, 'T'):
+      with anchored(run, 'C04/P'):
         deductive(run)
     bounded_part(run, 'C04')
     return FINISH
